@@ -5,7 +5,7 @@ from ..engines import session
 from . import _session_common as sc
 
 PROP = "C09"
-BUDGET = {"quick": 1400, "thorough": 40000}
+BUDGET = {"quick": 2400, "thorough": 50000}
 ALARM_S = 900
 RULE = ("seeded sequences of 1-8 assignments in mixed formats (list, tuple, ndarray, permuted (name,value) pairs, dict by "
         "name, dict keyed per entry by name / the model's own symbol / a sympy.Symbol made by the caller with no or other assumptions, partial dict) with must-reject operations (a name that is not a parameter - arbitrary, the reserved time symbol 't', a state name, a near miss - in dict/pairs, "
